@@ -70,6 +70,87 @@ pub fn run() -> i32 {
     } else {
         check("t5 decodes", false);
     }
+    // more gold values asserted by the repository's tests (independent of this harness):
+    // (payload, fill, [(key, idx, expected)])
+    let u = |v: u64| Exp::U(v);
+    let t = |v: &str| Exp::T(v.to_string());
+    let n = |v: &str| Exp::N(v.to_string());
+    let golds: Vec<(&[u8], usize, Vec<(&str, u8, Exp)>)> = vec![
+        (b"13u?etPv2;0n:dDPwUM1U1Cb069D", 0, vec![("mmsi", 255, u(265547250)), ("timestamp", 255, u(53)), ("true_heading", 255, Exp::OU(Some(41))), ("maneuver_indicator", 255, n("None")), ("raim", 255, Exp::B(false)),
+            ("radio_status", 255, Exp::Comm(vec![Comm::Sotdma { sync: 0, timeout: 1, sub: Sub::Utc(17, 21) }]))]),
+        (b"16SteH0P00Jt63hHaa6SagvJ087r", 0, vec![("radio_status", 255, Exp::Comm(vec![Comm::Sotdma { sync: 0, timeout: 2, sub: Sub::SlotNumber(506) }]))]),
+        (b"38Id705000rRVJhE7cl9n;160000", 0, vec![("mmsi", 255, u(563808000)), ("true_heading", 255, Exp::OU(Some(352))), ("timestamp", 255, u(35)),
+            ("radio_status", 255, Exp::Comm(vec![Comm::Itdma { sync: 0, incr: 0, slots: 0, keep: false }]))]),
+        (b"403OtVAv7=i?;o?IaHE`4Iw020S:", 0, vec![("mmsi", 255, u(3669145)), ("year", 255, Exp::OU(Some(2017))), ("month", 255, Exp::OU(Some(12))), ("day", 255, Exp::OU(Some(27))), ("hour", 255, u(17)),
+            ("minute", 255, Exp::OU(Some(15))), ("second", 255, Exp::OU(Some(11))), ("fix_quality", 255, n("Dgps")), ("epfd_type", 255, n("None")), ("raim", 255, Exp::B(true)),
+            ("radio_status", 255, Exp::Comm(vec![Comm::Sotdma { sync: 0, timeout: 0, sub: Sub::Offset(2250) }]))]),
+        (b"403OviQuMGCqWrRO9>E6fE700@GO", 0, vec![("mmsi", 255, u(3669702)), ("year", 255, Exp::OU(Some(2007))), ("epfd_type", 255, n("Some(Surveyed)")),
+            ("radio_status", 255, Exp::Comm(vec![Comm::Sotdma { sync: 0, timeout: 4, sub: Sub::SlotNumber(1503) }]))]),
+        (b"5341U9`00000uCGCKL0u=@T4000000000000001?<@<47u;b004Sm51DQ0C@", 0, vec![("mmsi", 255, u(205546790)), ("callsign", 255, t("OT5467")), ("eta_month_utc", 255, Exp::OU(Some(4))), ("destination", 255, t("ROTTERDAM"))]),
+        (b"53`soB8000010KSOW<0P4eDp4l6000000000000U0p<24t@P05H3S833CDP000000000000", 0, vec![("mmsi", 255, u(244250440)), ("callsign", 255, t("PF8793")), ("ship_type", 255, n("Some(PleasureCraft)")), ("destination", 255, t("NL LMMR"))]),
+        (b"6B?n;be:cbapalgc;i6?Ow4", 2, vec![("repeat_indicator", 255, u(1)), ("mmsi", 255, u(150834090)), ("seqno", 255, u(3)), ("dest_mmsi", 255, u(313240222)), ("dac", 255, u(669)), ("fid", 255, u(11))]),
+        (b"6>jR0600V:C0>da4P106P00", 2, vec![("mmsi", 255, u(992509976)), ("dest_mmsi", 255, u(2500912)), ("dac", 255, u(235)), ("fid", 255, u(10))]),
+        (b"702R5`hwCt40", 0, vec![("mmsi", 255, u(2655651)), ("acks.len", 255, u(1)), ("acks.mmsi", 0, u(265547840)), ("acks.seq", 0, u(0))]),
+        (b"91b55wi;hbOS@OdQAC062Ch2089h", 0, vec![("mmsi", 255, u(111232511)), ("altitude", 255, Exp::OU(Some(303))), ("timestamp", 255, u(15)), ("dte", 255, n("NotReady")), ("raim", 255, Exp::B(false))]),
+        (b":5MlU41GMK6@", 0, vec![("mmsi", 255, u(366814480)), ("dest_mmsi", 255, u(366832740))]),
+        (b"<5?SIj1;GbD07??4", 0, vec![("mmsi", 255, u(351853000)), ("dest_mmsi", 255, u(316123456)), ("text", 255, t("GOOD"))]),
+        (b"<42Lati0W:Ov=C7P6B?=Pjoihhjhqq0", 2, vec![("mmsi", 255, u(271002099)), ("retransmit", 255, Exp::B(true)), ("text", 255, t("MSG FROM 271002099"))]),
+        (b"@6STUk004lQ206bCKNOBAb6SJ@5s", 0, vec![("mmsi", 255, u(439952844)), ("mmsi1", 255, u(315920)), ("offset1", 255, u(2049)), ("increment1", 255, u(681)), ("mmsi2", 255, Exp::OU(Some(230137673))), ("offset2", 255, Exp::OU(Some(424))), ("increment2", 255, Exp::OU(Some(419)))]),
+        (b"@01uEO@mMk7P<P00", 0, vec![("mmsi1", 255, u(224251000)), ("offset1", 255, u(200)), ("mmsi2", 255, Exp::OU(None))]),
+        (b"B6:hQDh0029Pt<4TAS003h6TSP00", 0, vec![("mmsi", 255, u(413933907)), ("true_heading", 255, Exp::OU(Some(480))), ("timestamp", 255, u(13)), ("cs_unit", 255, n("CarrierSense")), ("whole_band", 255, Exp::B(true)),
+            ("radio_status", 255, Exp::Comm(vec![Comm::Itdma { sync: 3, incr: 0, slots: 0, keep: false }]))]),
+        (b"C6:ijoP00:9NNF4TEspILDN0Vc0jNc1WWV0000000000S2<6R20P", 0, vec![("mmsi", 255, u(413954782)), ("name", 255, t("SU YOU 333")), ("type_of_ship_and_cargo", 255, n("Some(Cargo)")), ("dimension_to_bow", 255, u(35)), ("dimension_to_stern", 255, u(13)), ("dimension_to_port", 255, u(4)), ("timestamp", 255, u(60)), ("dte", 255, n("NotReady"))]),
+        (b"D02<HjiUHBfr<`E6D0", 0, vec![("mmsi", 255, u(2300107)), ("res.len", 255, u(2)), ("res.num_slots", 0, u(1)), ("res.increment", 1, u(1125))]),
+        (b"D02;bK0RlLfq6DM6DA8u6D0", 0, vec![("mmsi", 255, u(2288236)), ("res.len", 255, u(3)), ("res.increment", 2, u(1125))]),
+        (b"H6:lEgQL4r1<QDr0P4pN3KSKP00", 0, vec![("mmsi", 255, u(413996478)), ("vessel_name", 255, t("WAN SHUN HANG 6868"))]),
+        (b"H3mr@L4NC=D62?P<7nmpl00@8220", 0, vec![("mmsi", 255, u(257855600)), ("ship_type", 255, n("Some(Fishing)")), ("vendor_id", 255, t("SMT")), ("model_serial", 255, t("FBO")), ("callsign", 255, t("LG6584")), ("dimension_to_stern", 255, u(8))]),
+        (b"H>cfmI4UFC@0DAN00000000H3110", 0, vec![("mmsi", 255, u(985380196)), ("ship_type", 255, n("Some(PleasureCraft)")), ("vendor_id", 255, t("VSP")), ("serial_number", 255, u(83038)), ("dimension_to_bow", 255, u(3))]),
+        (b"KC5E2b@U19PFdLbMuc5=ROv62<7m", 0, vec![("repeat_indicator", 255, u(1)), ("mmsi", 255, u(206914217)), ("raim", 255, Exp::B(false)), ("gnss_position_status", 255, Exp::B(false))]),
+        (b"K01;FQh?PbtE3P00", 0, vec![("mmsi", 255, u(1234567))]),
+        (b"?04759iVhc2lD003000", 2, vec![("mmsi", 255, u(4310311)), ("stations.len", 255, u(1)), ("st.mmsi", 0, u(431008813)), ("st.msgs.len", 0, u(2)), ("st.msg.type", 0, u(5)), ("st.msg.type", 1, u(3))]),
+        (b"?03Owo@nwsI0D00", 2, vec![("mmsi", 255, u(3669981)), ("st.mmsi", 0, u(230682000)), ("st.msg.type", 0, u(5))]),
+    ];
+    for (pl, fill, exps) in &golds {
+        match gold(pl, *fill) {
+            None => check(&format!("gold {:?} decodes", String::from_utf8_lossy(pl)), false),
+            Some(m) => {
+                for (k, idx, e) in exps {
+                    check(&format!("gold {:?} field {}[{}] = {:?}, model says {:?}", String::from_utf8_lossy(pl), k, idx, e, field(&m, k, *idx)), field(&m, k, *idx) == Some(e));
+                }
+            }
+        }
+    }
+    // floats asserted by the repository's tests (to their printed precision)
+    let fgold: Vec<(&[u8], usize, &str, f64)> = vec![
+        (b"13u?etPv2;0n:dDPwUM1U1Cb069D", 0, "speed_over_ground", 13.9),
+        (b"13u?etPv2;0n:dDPwUM1U1Cb069D", 0, "course_over_ground", 40.4),
+        (b"16SteH0P00Jt63hHaa6SagvJ087r", 0, "longitude", -70.7582),
+        (b"38Id705000rRVJhE7cl9n;160000", 0, "longitude", -76.32753),
+        (b"38Id705000rRVJhE7cl9n;160000", 0, "latitude", 36.91),
+        (b"403OtVAv7=i?;o?IaHE`4Iw020S:", 0, "longitude", -122.464775),
+        (b"403OtVAv7=i?;o?IaHE`4Iw020S:", 0, "latitude", 37.794308),
+        (b"53`soB8000010KSOW<0P4eDp4l6000000000000U0p<24t@P05H3S833CDP000000000000", 0, "draught", 2.1),
+        (b"91b55wi;hbOS@OdQAC062Ch2089h", 0, "speed_over_ground", 42.0),
+        (b"91b55wi;hbOS@OdQAC062Ch2089h", 0, "longitude", -6.2788434),
+        (b"91b55wi;hbOS@OdQAC062Ch2089h", 0, "latitude", 58.144),
+        (b"91b55wi;hbOS@OdQAC062Ch2089h", 0, "course_over_ground", 154.5),
+        (b"B6:hQDh0029Pt<4TAS003h6TSP00", 0, "longitude", 120.16217),
+        (b"B6:hQDh0029Pt<4TAS003h6TSP00", 0, "latitude", 31.924133),
+        (b"C6:ijoP00:9NNF4TEspILDN0Vc0jNc1WWV0000000000S2<6R20P", 0, "course_over_ground", 40.7),
+        (b"KC5E2b@U19PFdLbMuc5=ROv62<7m", 0, "longitude", 137.02333),
+        (b"KC5E2b@U19PFdLbMuc5=ROv62<7m", 0, "latitude", 4.84),
+        (b"KC5E2b@U19PFdLbMuc5=ROv62<7m", 0, "speed_over_ground", 57.0),
+        (b"KC5E2b@U19PFdLbMuc5=ROv62<7m", 0, "course_over_ground", 167.0),
+        (b"K01;FQh?PbtE3P00", 0, "longitude", -13.368334),
+        (b"K01;FQh?PbtE3P00", 0, "latitude", -50.121665),
+    ];
+    for (pl, fill, k, want) in &fgold {
+        let got = gold(pl, *fill).and_then(|m| match field(&m, k, 255) {
+            Some(Exp::F(Some(x))) => Some(*x),
+            _ => None,
+        });
+        check(&format!("gold float {:?} {} = {}, model says {:?}", String::from_utf8_lossy(pl), k, want, got), got.map_or(false, |x| (x - want).abs() <= 1e-5 * want.abs().max(1.0)));
+    }
     // generated messages decode (in the reference) to what was put in
     let mut r = crate::rng::Rng::new(7);
     for b in crate::gen::BRANCHES {
